@@ -432,6 +432,12 @@ def template_format(tmpl, pos, kw):
                         if cur:
                             spec_toks.append(cur)
                             cur = ""
+                        if ":" in nm or "!" in nm:
+                            # a nested field with its own spec / conversion: `{:d}`, `{n:d}`, `{!s}` of an integer print that integer
+                            nm, _, nspec = nm.partition(":")
+                            nm, _, nconv = nm.partition("!")
+                            if nspec not in ("", "d") or nconv not in ("", "s", "r"):
+                                return Unk("nested field with a format spec")
                         spec_toks.append(("field", nm))
                         m = e + 1
                         continue
